@@ -361,6 +361,8 @@ def build_request(case, obs):
     info = {"order": order, "names": names, "ptypes": own["names"], "groups": own["groups"], "generr": own["generr"],
             "K": float(kk) * float(hh) ** (case["iter"] if not join else 0), "K0": float(kk),
             "inexact": any(T.inexact(e) for e in exprs), "np_mayraise": npfn and mayraise, "nest": nest}
+    info["tie"] = _c14().tie_flags(case, order, obs["point"]) if info["inexact"] else {}
+    info["pow_overflow"] = _c14().overflow_flags(case, obs)
     return line, info
 
 
